@@ -157,7 +157,7 @@ func checkC12(r *Run) {
 		mu.Unlock()
 	}
 	variants := c12Variants()
-	n := r.pick(500, 15000)
+	n := r.pick(500, 4000)
 	parallel(n, 0, func(i int) {
 		rng := newRng(r.Seed, fmt.Sprint("c12", i))
 		modern := i%2 == 0
@@ -384,7 +384,7 @@ func c12InlineFile(files []cssFile, i int, stack []int) string {
 }
 
 func c12Imports(r *Run, st *c12Stats, add func(chromeCase, c12Meta)) {
-	n := r.pick(200, 5000)
+	n := r.pick(200, 1500)
 	parallel(n, 0, func(i int) {
 		rng := newRng(r.Seed, fmt.Sprint("c12imp", i))
 		nf := 2 + rng.Intn(4)
@@ -568,7 +568,7 @@ var cssDomNameRe = regexp.MustCompile(`(class|id)="([^"]*)"`)
 
 func c12Modules(r *Run, st *c12Stats, add func(chromeCase, c12Meta)) {
 	pool := r.Pool()
-	n := r.pick(150, 4000)
+	n := r.pick(150, 1200)
 	parallel(n, pool.Size(), func(i int) {
 		rng := newRng(r.Seed, fmt.Sprint("c12mod", i))
 		nm := 1 + rng.Intn(2)
